@@ -441,6 +441,8 @@ def verify_config(cname, cfg, concolic=True, timeout_ms=None):
     c = REGISTRY[cname]
     Psym, Pnat, snap_s, snap_n = packages()
     t0 = time.time()
+    if getattr(c, 'native_only', False):
+        return _verify_native(c, cname, cfg, Pnat, snap_n)
     res = {'contract': cname, 'cfg': cfg, 'paths': 0, 'obligations': [], 'undecided_paths': [],
            'concolic': 0, 'concolic_skipped': 0, 'checker_errors': [], 'native_failures': [],
            'solver_s': 0.0, 'assumed': set(), 'notes': [], 'exc_paths': 0, 'clauses_reached': {}, 'fp_exact_proved': 0, 'fp_approx': 0}
@@ -547,6 +549,38 @@ def verify_config(cname, cfg, concolic=True, timeout_ms=None):
     res['assumed'] = sorted(res['assumed'])
     res['wall_s'] = time.time() - t0
     core.CTX = None
+    return res
+
+
+def _verify_native(c, cname, cfg, Pnat, snap_n):
+    """bounded stand-in as the deciding method: the contract is evaluated at run time on the untransformed
+    library for one (concrete) configuration; results are labelled `bounded`, never `discharged by a solver`"""
+    t0 = time.time()
+    res = {'contract': cname, 'cfg': cfg, 'paths': 1, 'obligations': [], 'undecided_paths': [], 'concolic': 0,
+           'concolic_skipped': 0, 'checker_errors': [], 'native_failures': [], 'solver_s': 0.0, 'assumed': [], 'notes': [],
+           'exc_paths': 0, 'clauses_reached': {}, 'fp_exact_proved': 0, 'fp_approx': 0, 'bounded_evaluations': 1, 'native_only': True}
+    saved = core.CTX
+    core.CTX = None
+    try:
+        snap_n.restore()
+        inp = c.inputs(cfg, NativeDecl({}))
+        obs = _run_guarded(c, cfg, Pnat, inp)
+        cl = c.post(cfg, inp, obs)
+        if obs.get('exc') is not None and obs['exc'] not in c.allowed_exceptions:
+            cl = dict(cl); cl['no_exception'] = False
+        for k, v in cl.items():
+            ok = v is True or (v is not False and bool(v))
+            rec = {'label': k, 'kind': 'clause', 'result': 'discharged' if ok else 'failed', 'backend': 'bounded', 'model': {}, 'time': 0.0, 'path': 0}
+            if not ok:
+                rec['replay'] = {'replayable': True, 'failed_clauses': [k], 'inputs': {}, 'obs': canon(_strip_private(obs), None), 'found_by': 'bounded'}
+                rec['solver'] = 'clause evaluated to False natively'
+            res['obligations'].append(rec)
+            res['clauses_reached'][k] = res['clauses_reached'].get(k, 0) + 1
+    except Exception as e:
+        res['checker_errors'].append('native-only contract crashed: %s: %s\n%s' % (type(e).__name__, e, traceback.format_exc()[-1200:]))
+    finally:
+        core.CTX = saved
+    res['wall_s'] = time.time() - t0
     return res
 
 
